@@ -55,7 +55,7 @@ def h_infer(i: int) -> bool:
 
 def _check_text(header, records, has_header, delim, use_path):
     buf = io.StringIO()
-    w = csv.writer(buf, delimiter=delim, lineterminator='\n')
+    w = csv.writer(buf, delimiter=delim, lineterminator='\r\n')      # CR and LF inside cells are then quoted
     if has_header:
         w.writerow(header)
     for rec in records:
